@@ -167,6 +167,16 @@ func famSign(tr *Trace, scratch string, seed int64, tier string, repo string, be
 			add(signCase{fmtName: "apk", keyKind: k.priv, pubRSA: k.pub, keyName: kn.name, maintain: kn.maint, expectOK: true})
 		}
 	}
+	// the name under which an apk signature is stored: the configured key name whatever the maintainer looks like (free
+	// text, an unquoted comma, none at all); neither a key name nor a maintainer address: nothing can name the signature,
+	// the signing that was asked for fails
+	for _, m := range []string{"ACME Release Engineering", "Foo, Inc. <foo@example.com>", "", "   "} {
+		add(signCase{fmtName: "apk", keyKind: "rsa_unprotected.priv", pubRSA: "rsa_unprotected.pub", keyName: "release-key", maintain: m, expectOK: true})
+	}
+	for _, m := range []string{"", "no address here"} {
+		add(signCase{fmtName: "apk", keyKind: "rsa_unprotected.priv", pubRSA: "rsa_unprotected.pub", keyName: "", maintain: m, failKind: "no_key_name"})
+		add(signCase{fmtName: "apk", keyKind: "callback", keyName: "", maintain: m, failKind: "no_key_name"})
+	}
 	// an unprotected key while a passphrase is set (NFPM_PASSPHRASE is global: it may be there for another format's key)
 	add(signCase{fmtName: "apk", keyKind: "rsa_unprotected.priv", pubRSA: "rsa_unprotected.pub", keyName: "origin", maintain: "Jane Doe <jane@example.org>", expectOK: true, withPass: true})
 	add(signCase{fmtName: "deb", method: "debsign", keyKind: "privkey_unprotected.asc", expectOK: true, withPass: true})
